@@ -28,7 +28,7 @@ RULE = (
     "compare -> continue from the copy. Oracle: same class; equal public parameters (width, depth, max_count, num_reserved, base, p, seed, phi, "
     "max_key_len); equal tables, n_added(), n_records(); equal queries for every universe key (heavy hitters: query(inf,t) for t in {None,0,1} and "
     "hh[key]; HyperLogLog: query()); merge raises nothing. Deterministic part: for all 6 ordered pairs of count-min types and several shapes the "
-    "class loader of one type must reject a file written by another (any exception), and countmin.load must return the writer's class. "
+    "class loader of one type must reject a file written by another (any exception), and countmin.load must return the writer's class; for default-phi heavy hitters of every width 1..250 (thorough 1..1000) with n_added = k*width and keys holding exactly k-1 and k, original and loaded copy must answer alike. "
     "Non-trivial: non-default parameter, or non-empty state, or shared-memory load. Distinct = distinct case."
 )
 ASSUMPTIONS = [
@@ -250,13 +250,55 @@ def cross_type(rec):
         shutil.rmtree(tmp, ignore_errors=True)
 
 
+def _phi_grid(arg):
+    """Directed: default-phi heavy hitters at the default-threshold boundary.  For every width in the range
+    and n_added = k*width, a key holding exactly k-1 and one holding k: the loaded copy (which receives phi
+    explicitly) must answer query() like the original."""
+    lo, hi = arg
+    rec = common.Recorder()
+    tmp = tempfile.mkdtemp(prefix="vf_c10g_")
+    try:
+        for width in range(lo, hi):
+            for k in (2, 3, 5):
+                cfg = {"kind": "hh", "width": width, "depth": 1, "max_key_len": 4, "phi": None}
+                sk = make_sketch(cfg)
+                n = k * width
+                sk.add(b"A", k - 1)
+                sk.add(b"B", k)
+                rest = n - (2 * k - 1)
+                if rest < 0:
+                    continue
+                if rest:
+                    sk.add(b"C", rest)
+                path = os.path.join(tmp, f"g{width}_{k}.npz")
+                sk.save(path)
+                case = {"phi_grid": True, "width": width, "k": k}
+                try:
+                    cp = sut(HeavyHitters.load, path)
+                    compare(sk, cp, "hh", [b"A", b"B", b"C"], f"default-phi grid width={width} n_added={n}")
+                except Violation as v:
+                    rec.violation(case, v.msg, v.signature)
+                    return rec
+                os.unlink(path)
+                rec.case(case, True, ["default_phi_grid"])
+    finally:
+        shutil.rmtree(tmp, ignore_errors=True)
+    return rec
+
+
 def run(tier, seed, rec):
     cross_type(rec)
+    common.pool_merge(_phi_grid, [(lo, lo + 25) for lo in range(1, 251 if tier == "quick" else 1001, 25)], rec)
     total, shards = (2400, 16) if tier == "quick" else (40000, 32)
     common.pool_merge(_shard, [(seed, i, total // shards) for i in range(shards)], rec)
 
 
 def replay(case):
+    if case.get("phi_grid"):
+        r = _phi_grid((case["width"], case["width"] + 1))
+        if r.violations:
+            raise Violation(r.violations[0]["msg"], r.violations[0]["signature"])
+        return
     if case.get("cross"):
         r = common.Recorder()
         cross_type(r)
